@@ -1034,7 +1034,7 @@ class sptensor:
         [1, 1] = 1.0
         """
         # Case 1: One argument is a scalar
-        if isinstance(other, (int, float)):
+        if isinstance(other, (int, float, np.number)):
             if other == 0:
                 C = sptensor(shape=self.shape)
             else:
@@ -1149,7 +1149,7 @@ class sptensor:
         # Case 1: Argument is a scalar or tensor
         if isinstance(other, ttb.tensor) and self.shape != other.shape:
             assert False, "Logical Or requires tensors of the same size"
-        if isinstance(other, (float, int, ttb.tensor)):
+        if isinstance(other, (float, int, np.number, ttb.tensor)):
             return self.full().logical_or(other)
 
         # Case 2: Argument is an sptensor
@@ -1226,7 +1226,7 @@ class sptensor:
         # Case 1: Argument is a scalar or dense tensor
         if isinstance(other, ttb.tensor) and self.shape != other.shape:
             assert False, "Logical XOR requires tensors of the same size"
-        if isinstance(other, (float, int, ttb.tensor)):
+        if isinstance(other, (float, int, np.number, ttb.tensor)):
             return self.full().logical_xor(other)
 
         # Case 2: Argument is an sptensor
@@ -2699,7 +2699,7 @@ class sptensor:
         [1, 1] = 1.0
         """
         # Case 1: other is a scalar
-        if isinstance(other, (float, int)):
+        if isinstance(other, (float, int, np.number)):
             if other == 0:
                 return self.logical_not()
             idx = self.vals == other
@@ -2800,7 +2800,7 @@ class sptensor:
         [1, 0] = 1.0
         """
         # Case 1: One argument is a scalar
-        if isinstance(other, (float, int)):
+        if isinstance(other, (float, int, np.number)):
             if other == 0:
                 return ttb.sptensor(
                     self.subs, True * np.ones((self.nnz, 1)), self.shape
@@ -2918,7 +2918,7 @@ class sptensor:
         # Case 1: Second argument is a scalar or a dense tensor
         if isinstance(other, ttb.tensor) and self.shape != other.shape:
             assert False, "Must be two tensors of the same shape"
-        if isinstance(other, (float, int, ttb.tensor)):
+        if isinstance(other, (float, int, np.number, ttb.tensor)):
             return self.full() - other
 
         # Case 2: Both are sparse tensors
@@ -2965,6 +2965,9 @@ class sptensor:
         # If other is sumtensor perform sumtensor add
         if isinstance(other, ttb.sumtensor):
             return other.__add__(self)
+        # A scalar is added to the dense form (an unsigned scalar cannot be negated)
+        if isinstance(other, (float, int, np.number)):
+            return self.full() + other
         # Otherwise return negated sub
         return self.__sub__(-other)
 
@@ -3125,7 +3128,7 @@ class sptensor:
                 f" {operator=}"
             )
         # Case 1: One argument is a scalar
-        if isinstance(other, (float, int)):
+        if isinstance(other, (float, int, np.number)):
             subs1 = np.empty(shape=(0, self.ndims), dtype=int)
             if self.nnz > 0:
                 subs1 = self.subs[(operator(self.vals, other)).transpose()[0], :]
@@ -3367,7 +3370,7 @@ class sptensor:
         [1, 1] = 0.66666...
         """
         # Divide by a scalar -> result is sparse
-        if isinstance(other, (float, int)):
+        if isinstance(other, (float, int, np.number)):
             # Inline mrdivide
             newsubs = self.subs
             # We ignore the divide by zero errors because np.inf/np.nan is an
@@ -3491,7 +3494,7 @@ class sptensor:
          [0.5 0.5]]
         """
         # Scalar divided by a tensor -> result is dense
-        if isinstance(other, (float, int)):
+        if isinstance(other, (float, int, np.number)):
             return other / self.full()
         assert False, "Dividing that object by an sptensor is not supported"
 
